@@ -22,7 +22,7 @@ BASE = {
     "Alphabet": "AlphabetDef", "MaxChars": 3, "MaxOps": 3, "Texts": "TextsDef", "Lits": "LitsDef",
     "Kinds": "AllKinds", "FixedCaps": "CapsDef", "StartTexts": "AllStrings", "CtorNames": "AllCtors",
     "OpNames": "AllOps", "MaxSegs": 2, "MaxPieces": 2, "InclSet": "BothIncl", "Apis": "BothApis",
-    "DrainF": 2, "DrainB": 1,
+    "DrainF": 2, "DrainB": 1, "CheckProps": "TRUE", "SampleK": 0,
 }
 MC_INVARIANTS = ["TypeOK", "WholeChars", "CapOk", "BoundaryAgree"]
 
@@ -35,7 +35,7 @@ def _cfg(path, consts, invariants, view):
         lines.append("VIEW view")
     lines.append("CONSTANTS")
     for k, v in c.items():
-        lines.append("    %s %s %s" % (k, "=" if isinstance(v, int) else "<-", v))
+        lines.append("    %s %s %s" % (k, "=" if isinstance(v, int) or v in ("TRUE", "FALSE") else "<-", v))
     lines.append("INVARIANTS")
     lines += ["    " + i for i in invariants]
     with open(path, "w") as f:
@@ -74,60 +74,90 @@ def model_check(thorough, wd):
 # 2. behaviour emission
 
 def _emission_sets(thorough):
-    """(name, constants, simulate(num, depth) | None, workers)"""
-    s = seed()
-    one_op = {"MaxOps": 2, "CtorNames": "FromStrOnly", "Apis": "BothApis"}
+    """(name, constants, None | (walks per process, depth, processes))"""
+    emitc = {"CheckProps": "FALSE"}
+    one_op = dict(emitc, MaxOps=2, CtorNames="FromStrOnly", Apis="BothApis")
+    walk = dict(emitc, MaxChars=4, StartTexts="SomeStrings", MaxSegs=3, Texts="TextsSmall", MaxPieces=1, DrainF=1, DrainB=1,
+                SampleK=4)
     if not thorough:
         return [
             # every string of <= 2 characters x every operation instance (one step after the constructor)
-            ("every-op", dict(one_op, MaxChars=2, Texts="TextsSmall", InclSet="NoIncl", DrainF=1, DrainB=1, MaxPieces=1), None),
+            ("every-op", dict(one_op, MaxChars=2, Texts="TextsSmall", InclSet="NoIncl", DrainF=1, DrainB=1, MaxPieces=1,
+                              FixedCaps="CapsSmall"), None),
             # every instance of the decoding / formatting constructors
-            ("every-ctor", {"MaxOps": 1, "MaxChars": 4, "CtorNames": "DecodeCtors", "MaxSegs": 2, "MaxPieces": 2}, None),
+            ("every-ctor", dict(emitc, MaxOps=1, MaxChars=4, CtorNames="DecodeCtors", MaxSegs=2, MaxPieces=2), None),
             # seeded random walks
-            ("walks", {"MaxOps": 8, "MaxChars": 4, "StartTexts": "SomeStrings", "MaxSegs": 3}, (1500, 12)),
+            ("walks", dict(walk, MaxOps=8), (300, 12, 4)),
         ]
     sets = []
-    # every string of <= 3 characters x every operation instance, split by kind to keep TLC's output in memory
+    # every string of <= 3 characters x every operation instance, split by kind to bound the size of one TLC run
     for kind in ("KindBox", "KindFixed", "KindGrow"):
         sets.append(("every-op-" + kind, dict(one_op, MaxChars=3, Kinds=kind, Texts="TextsSmall", InclSet="BothIncl",
                                               DrainF=2, DrainB=1, MaxPieces=2), None))
-    sets.append(("every-ctor", {"MaxOps": 1, "MaxChars": 4, "CtorNames": "DecodeCtors", "MaxSegs": 3, "MaxPieces": 2}, None))
+    sets.append(("every-ctor", dict(emitc, MaxOps=1, MaxChars=4, CtorNames="DecodeCtors", MaxSegs=3, MaxPieces=2), None))
     # every behaviour of constructor + 2 operations over a 3-character alphabet (widths 1, 2, 4)
-    sets.append(("every-path-2", {"MaxOps": 3, "MaxChars": 2, "Alphabet": "AlphabetSmall", "StartTexts": "Strings1",
-                                  "CtorNames": "FromStrOnly", "Texts": "TextsSmall", "InclSet": "NoIncl",
-                                  "Apis": "OnlyP", "DrainF": 1, "DrainB": 0, "MaxPieces": 1, "FixedCaps": "CapsSmall"}, None))
-    sets.append(("walks", {"MaxOps": 10, "MaxChars": 4, "StartTexts": "SomeStrings", "MaxSegs": 3}, (30000, 14)))
+    sets.append(("every-path-2", dict(emitc, MaxOps=3, MaxChars=2, Alphabet="AlphabetSmall", StartTexts="Strings1",
+                                      CtorNames="FromStrOnly", Texts="TextsSmall", InclSet="NoIncl", Apis="OnlyP",
+                                      DrainF=1, DrainB=0, MaxPieces=1, FixedCaps="CapsSmall"), None))
+    sets.append(("walks", dict(walk, MaxOps=10), (3000, 14, 8)))
     return sets
 
 
+def _collect(user_file, name, out, n0):
+    """PrintT lines <<"REPLAY", "json">> of one TLC run (written by -userFile) -> behaviour lines"""
+    k = 0
+    prefix = '<<"REPLAY", '
+    with open(user_file) as f:
+        for line in f:
+            line = line.strip()
+            if not line.startswith(prefix):
+                continue
+            steps = json.loads(json.loads(line[len(prefix):-2]))
+            k += 1
+            out.write(json.dumps({"id": n0 + k, "set": name, "steps": steps}, separators=(",", ":")))
+            out.write("\n")
+    os.unlink(user_file)
+    return k
+
+
 def emit(thorough, wd):
-    """Runs TLC once per emission set; writes wd/behaviours.ndjson; returns (path, {set: count}, tlc seconds)."""
+    """Runs TLC once per emission set (random walks: several seeded single-worker processes in parallel); writes
+    wd/behaviours.ndjson; returns (path, {set: count}, tlc seconds)."""
+    from concurrent.futures import ThreadPoolExecutor
     path = os.path.join(wd, "behaviours.ndjson")
     counts = collections.OrderedDict()
     n = 0
-    secs = 0.0
+    t0 = time.time()
     with open(path, "w") as out:
         for name, consts, sim in _emission_sets(thorough):
             cfg = _cfg(os.path.join(wd, "emit-%s.cfg" % name), consts, ["Emit"], False)
+            t1 = time.time()
             if sim:
-                r = tlc("MC_Str", cfg, workers=4, timeout=2400, simulate=sim[0], depth=sim[1], xmx="4g")
+                num, depth, procs = sim
+
+                def one(i):
+                    uf = os.path.join(wd, "emit-%s-%d.out" % (name, i))
+                    r = tlc("MC_Str", cfg, workers=1, timeout=2400, simulate=num, depth=depth, xmx="3g",
+                            seed_=seed() * 64 + i, args=("-userFile", uf),
+                            metadir=os.path.join(wd, "md-%s-%d" % (name, i)))
+                    require_ok(r, "random walks %d" % i)
+                    return uf
+                with ThreadPoolExecutor(max_workers=procs) as ex:
+                    ufs = list(ex.map(one, range(procs)))
             else:
-                r = tlc("MC_Str", cfg, workers=8, timeout=2400, xmx="12g")
-            require_ok(r, "behaviour emission " + name)
-            secs += r.wall
+                uf = os.path.join(wd, "emit-%s.out" % name)
+                r = tlc("MC_Str", cfg, workers=8, timeout=2400, xmx="12g", args=("-userFile", uf))
+                require_ok(r, "behaviour emission " + name)
+                ufs = [uf]
             k = 0
-            for inner in r.tagged("REPLAY"):
-                steps = json.loads(json.loads(inner))
-                n += 1
-                k += 1
-                out.write(json.dumps({"id": n, "set": name, "steps": steps}, separators=(",", ":")))
-                out.write("\n")
+            for uf in ufs:
+                k += _collect(uf, name, out, n + k)
+            n += k
             if k == 0:
                 raise ToolError("behaviour emission %s produced nothing" % name)
             counts[name] = k
-            log("emitted %-22s %8d behaviours (%.0fs)" % (name, k, r.wall))
-            del r
-    return path, counts, secs
+            log("emitted %-22s %8d behaviours (%.0fs)" % (name, k, time.time() - t1))
+    return path, counts, time.time() - t0
 
 
 # ----------------------------------------------------------------------------------------------------------------
@@ -239,7 +269,15 @@ def check_c09(tier):
     t0 = time.time()
     thorough = tier == "thorough"
     out = Outcome(PID)
-    wd = workdir(PID)
+    wd = workdir("%s-%d" % (PID, os.getpid()))
+    try:
+        return _check(tier, t0, thorough, out, wd)
+    finally:
+        if not os.environ.get("VERIF_KEEP"):
+            shutil.rmtree(wd, ignore_errors=True)
+
+
+def _check(tier, t0, thorough, out, wd):
     bins = cargo_build("strs", jobs=8)
 
     mc = model_check(thorough, wd)
